@@ -83,7 +83,7 @@ CLAIMS = {
              'has no recursion and its only loop consumes a slice iterator (DECODER-TOTAL; dev and, in thorough, release '
              'configuration); SourceMap::from_json/from_slice/from_reader add no panic site of their own and propagate every error '
              '(JSON-ENTRY; simd-json itself assumed total). NOT decided: panic-freedom of the streaming cone (≈250 arithmetic asserts, '
-             'indexing on map-supplied lines/indices) — reading found real panics there for wild maps; no discharge analysis is in reach. Added: CLAMP — ReplaceSource::source()/rope() slice the inner text only with bounds clamped to its length (replacement positions beyond the end are in the documented domain). Round 4: INDEX-GUARDED — forward abstract interpretation of every body in the zone domain (difference constraints over integer locations and container lengths; guards, resize/growth loops, len()-derived indices, closure entry facts, widening) proves `index < len` for 52 of the 70 `container[usize]` accesses and MIR bounds checks of the crate; the other 18 are listed with the invariant they rely on (grouped by element type, counted) and any additional unproven access is reported. Decides the upper bound only (not `x - 1` underflow, not range slicing / char boundaries). ENCODER-TOTAL — every overflow-checked subtraction / addition / shift and every table index of the mappings encoders is discharged by the zone analysis (found F9: `current_original_line + 1` overflowed for a wild map, fixed as 7ac4a9a); one subtraction relies on the sorted-segments domain and is listed as assumed. VIEWS-TOTAL — the content views of ReplaceSource do no unchecked position arithmetic.',
+             'indexing on map-supplied lines/indices) — reading found real panics there for wild maps; no discharge analysis is in reach. Added: CLAMP — ReplaceSource::source()/rope() slice the inner text only with bounds clamped to its length (replacement positions beyond the end are in the documented domain). Round 4: INDEX-GUARDED — forward abstract interpretation of every body in the zone domain (difference constraints over integer locations and container lengths; guards, resize/growth loops, len()-derived indices, closure entry facts, widening) proves `index < len` for 52 of the 70 `container[usize]` accesses and MIR bounds checks of the crate; the other 18 are listed with the invariant they rely on (grouped by element type, counted) and any additional unproven access is reported. Decides the upper bound only (not `x - 1` underflow, not range slicing / char boundaries). ENCODER-TOTAL — every overflow-checked subtraction / addition / shift and every table index of the mappings encoders is discharged by the zone analysis (found F9: `current_original_line + 1` overflowed for a wild map, fixed as 7ac4a9a); one subtraction relies on the sorted-segments domain and is listed as assumed. VIEWS-TOTAL — the content views of ReplaceSource do no unchecked position arithmetic. After round 6: the zone engine is wrap-aware (a subtraction or addition counts as exact only when proven to stay inside the type; otherwise the result is tainted and any index built from it, also for checked get() accesses, is unproven) - found F10 and F11; POSITION-ADD - u32 arithmetic on the generated position a child reports to a composite is proven, widened or listed (found F12).',
         technique='interval/range discharge of MIR Assert terminators with guard provenance; loop/recursion census; panic-site census',
         design_ref='§5 C17'),
     'C07': dict(
